@@ -32,7 +32,8 @@ RULE = ("One case = one whole event history applied to a fresh FSM (kinds fsm / 
         "canonical prefix, event A runs on one goroutine and is parked inside its first notification (or send) "
         "callback by a gate; event B is injected from a second goroutine; the recorded stream and final state must be "
         "those of the sequential history A;B (events are atomic), tlu/tld must alternate and an acknowledged "
-        "Terminate-Request must leave Opened. Non-trivial: the history produced at least one send or callback. "
+        "Terminate-Request must leave Opened. Restore() and Kill() are driven as extra ops R / K in every canonical state "
+        "and inside random walks. Non-trivial: the history produced at least one send or callback. "
         "Distinct: by case text. The distribution records how many (state, RFC event class) cells of the 10x17 table "
         "were exercised and how many conc cases really overlapped.")
 TRUSTED = ["the option handler is abstracted to the class of its answer (good/nak/rej/both) for the automaton; "
@@ -189,6 +190,18 @@ def gen_cases(rng, tier, budget):
             for e1 in acks:
                 for e2 in nxt:
                     cases.append(mk(kind, ("3", "1"), p + [e1, e2, "T", RCRP]))
+    # 6b. Restore() / Kill() (entry points outside the RFC event set) in every canonical state, then any event
+    for cfg in (("2", "1"), ("d", "d")):
+        for p in prefixes(*cfg):
+            for adm in ("R", "K"):
+                for e in E_RED:
+                    cases.append(mk("fsm", cfg, p + [adm, e, "T"]))
+    for _ in range(200 if quick else 2000):
+        w = rand_walk(rng, ln)
+        for i in range(len(w)):
+            if rng.random() < 0.06:
+                w[i] = rng.choice(["R", "K"])
+        cases.append(mk(rng.choice(["fsm", "lcp", "ipcp"]), ("2", "1"), w))
     # 7. forced overlap: A parked in a callback, B injected from a second goroutine
     A_SET = [RCRP, "I1.7.n.0", RCA, "I3.c.g.0", RTR, "I6.9.g.0", RXJ, "C", "D", "T", "O", "U"]
     B_SET = [RCA, RTR, RCRP, "T", "C", "D", "I3.c.g.0", "I6.9.g.0"]
@@ -251,6 +264,8 @@ def rfc_class(op, pre, kind="fsm"):
         return {"U": "Up", "D": "Down", "O": "Open", "C": "Close"}[op]
     if op == "T":
         return "TO+" if pre[1] > 0 else "TO-"
+    if op in ("R", "K"):
+        return "admin-" + {"R": "Restore", "K": "Kill"}[op]
     if "||" in op:
         return "overlapped-pair"
     f = op[1:].split(".")
@@ -404,7 +419,7 @@ def distribution(cases, impl):
             n = STATES[s[-1][0]]
             d["final_states"][n] = d["final_states"].get(n, 0) + 1
     d["distinct_confreq_contents"] = len(contents)
-    cells = {x for x in cells if x[1] != "overlapped-pair"}
+    cells = {x for x in cells if x[1] != "overlapped-pair" and not x[1].startswith("admin-")}
     d["cells_hit"] = len({(a, b) for a, b, _ in cells})
     d["cells_x_counterclass_hit"] = len(cells)
     d["cells_total"] = 10 * 18 - 9  # 10 states x (17 RFC classes + discarded); RXJ+ arises in Opened only
